@@ -75,6 +75,12 @@ prop('C07', 'model_checking', 'exhaustive enumeration of a configuration product
      'requested block/cluster/inode size, group size, inode count and features are present, s_blocks_count fits the request, the backup superblock set is exactly the format\'s and current; pre-filled targets stay identical under mke2fs -n; a second run from the same initial device is byte-identical.',
      'quick: 8 feature sets for the size sweep and 6 for the option deviations; rejected configurations are counted only. Known finding: the MMP block carries wall-clock time. One genuine defect found (quota files written before -d population) was repaired.', '4/C07')
 
+prop('C11', 'model_checking', 'explicit-state BFS over sequences of tune2fs invocations (image states de-duplicated by masked hash), per-transition oracle: requested setting, superblock frame condition, independent tree digest, e2fsck + independent checker',
+     'Breadth-first search from 8 corpus images over a menu of 42 tune2fs invocations (feature conversions incl. metadata_csum, uninit_bg, journal, extents, quota/project quota, csum seed, UUID set/clear, inode size growth, flex_bg/huge_file/dir_nlink/dir_index/large_dir/ea_inode flags, labels, reserved blocks, '
+     'error behaviour, intervals, mount options, RAID hints) to depth 2 (thorough 3): after every successful invocation the requested setting is in the superblock, no superblock field outside the operation\'s allow-list changed, every file is unchanged, and the filesystem is consistent '
+     '(after the e2fsck run tune2fs asked for, which must exit <= 1).',
+     'state space is closed under de-duplication only up to the depth bound; quick expands the second level with the 27 conversion operations only. Two root causes are known findings (tune2fs ignores the orphan file; e2fsck mis-accounts inline-data symlinks in quota); one defect (^dir_index without e2fsck request) was repaired.', '4/C11')
+
 def main():
     props = [json.loads(l) for l in open(os.path.join(V, 'properties.jsonl'))]
     checks, na = [], []
